@@ -651,6 +651,42 @@ Definition exec_micro (e : exec) (me : nat) (m : micro) : mres :=
                end
       end
 
+  | MCellNested u k =>
+      (* outer access: rt::synchronize (causality_inc), the is_reading / is_writing assertions (they hold:
+         the operation starts with no access in progress), tracking; inner access: causality_inc, then its
+         assertions, which fail unless both accesses are reads *)
+      let e := causality_inc e me in
+      match get_cell e u with
+      | None => MFail e (PanicModel 21)
+      | Some s =>
+          if ce_writing s then MFail e PanicCellWriting
+          else if negb (Nat.eqb k 0) && negb (Nat.eqb k 3) && negb (Nat.eqb (ce_reading s) 0) then MFail e PanicCellReading
+          else
+            let outer := if Nat.eqb k 0 || Nat.eqb k 3 then cell_track_read s (caus_of e me)
+                         else cell_track_write s (caus_of e me) in
+            match outer with
+            | inr p => MFail e p
+            | inl s1 =>
+                let e := causality_inc e me in
+                if Nat.eqb k 0 then MFail e PanicCellReading
+                else if negb (Nat.eqb k 3) then MFail e PanicCellWriting
+                else
+                  (* read in read: inner start, inner guard drop, outer guard drop *)
+                  match cell_track_read s1 (caus_of e me) with
+                  | inr p => MFail e p
+                  | inl s2 =>
+                      match cell_track_read s2 (caus_of e me) with
+                      | inr p => MFail e p
+                      | inl s3 =>
+                          match cell_track_read s3 (caus_of e me) with
+                          | inr p => MFail e p
+                          | inl s4 => MOk (log_op (upd_object e u (fun _ => OCell s4)) me (RVal (ho_cell (get_h e u))))
+                          end
+                      end
+                  end
+            end
+      end
+
   | MCellWrite u v =>
       let e := causality_inc e me in
       match get_cell e u with
